@@ -187,13 +187,13 @@ func (c *checker) flush() {
 		if d == "" {
 			fmt.Fprintln(os.Stderr, "protocheck: driver path missing")
 			cleanupAll()
-		os.Exit(3)
+			os.Exit(3)
 		}
 		ans, err := lineproto.Run(d, ops)
 		if err != nil {
 			fmt.Fprintln(os.Stderr, "protocheck:", err)
 			cleanupAll()
-		os.Exit(3)
+			os.Exit(3)
 		}
 		for k, i := range idx {
 			p := c.pend[i]
